@@ -45,7 +45,7 @@ def prog_str(progs):
     return ';'.join(','.join('%s%d' % op for op in ops) or '-' for ops in progs) or '-'
 
 
-def scenario(C, E, progs, choose, transport='plain', capw=300, capr=50, fine=False, listener=None):
+def scenario(C, E, progs, choose, transport='plain', capw=300, capr=50, fine=False, listener=None, fail_prefix=None):
     """run one scenario to completion; returns dict(log, ran, wire bytes, …)"""
     from minecraft.networking.packets import serverbound
     rng_dummy = None
@@ -91,6 +91,7 @@ def scenario(C, E, progs, choose, transport='plain', capw=300, capr=50, fine=Fal
         conn = Conn('h', 1, username='u', allowed_versions={757})
         attached = isinstance(conn._write_lock, FLock)
         isock = SC.ISock(S)
+        isock.fail_prefix = fail_prefix
         conn.socket = isock
         secret = bytes(range(1, 17))
         if transport == 'encrypted':
@@ -127,7 +128,19 @@ def scenario(C, E, progs, choose, transport='plain', capw=300, capr=50, fine=Fal
         def user(tid, ops):
             def body():
                 for kind, arg in ops:
-                    if kind == 'd':
+                    if kind == 'D':
+                        # what PlayingReactor does on a server disconnect: graceful, and if the flush
+                        # fails, immediate
+                        try:
+                            try:
+                                conn.disconnect()
+                            except IOError:
+                                conn.disconnect(immediate=True)
+                        except Exception as e:
+                            caller_errors.append((tid, 'disconnect', repr(e)))
+                        S.before('ddone')
+                        S.emit('ddone')
+                    elif kind == 'd':
                         try:
                             conn.disconnect(immediate=bool(arg))
                         except Exception as e:
@@ -148,13 +161,18 @@ def scenario(C, E, progs, choose, transport='plain', capw=300, capr=50, fine=Fal
         tids = list(range(len(progs) + 1))
         for t in threads:
             t.start()
-        ok = S.run(tids, choose)
+        stuck = None
+        try:
+            ok = S.run(tids, choose)
+        except SC.Deadlock as e:
+            stuck = str(e)
+            S.kill()
         for t in threads:
             t.join(timeout=5)
         import collections
         queue_left = [x.pid for x in collections.deque.__iter__(conn._outgoing_packet_queue)]
         return dict(S=S, log=S.log, ran=S.ran, wire=isock.wire, closed=isock.closed, queue=queue_left,
-                    attached=attached, errors=S.errors, caller_errors=caller_errors, secret=secret,
+                    attached=attached, errors=S.errors, caller_errors=caller_errors, secret=secret, stuck=stuck,
                     nt_slot=conn.networking_thread)
     finally:
         C.RLock, C.deque, C.select, C.Connection._write_packet = saved
@@ -243,6 +261,9 @@ def oracle(ctx, progs, r, transport, label, extra_issued=(), stream_only=False):
                     i += 1
     if r['caller_errors']:
         bad = bad or 'an API call raised to its caller: %r' % (r['caller_errors'][:2],)
+    if r.get('stuck'):
+        # every program contains a disconnect, after which the networking thread must end
+        bad = bad or 'the threads do not come to rest although a disconnect was executed (%s)' % r['stuck']
     if bad:
         ctx.violation('%s: %s' % (label, bad),
                       {'programs': prog_str(progs), 'schedule': r['ran'], 'transport': transport},
@@ -306,6 +327,45 @@ def run(ctx):
         ctx.count('listener_walks.' + act)
         oracle(ctx, progs, r, 'plain', label, extra_issued=[900 + trig], stream_only=True)
         if r['errors']:
+            ctx.violation('%s: a thread raised: %r' % (label, r['errors'][:2]), {'programs': prog_str(progs), 'schedule': r['ran']},
+                          key={'programs': prog_str(progs), 'schedule': r['ran'], 'kind': 'thread-error'})
+    # ---- a send that fails during the flush of a graceful disconnect, followed by the immediate
+    # disconnect the library itself falls back to: nothing may be sent after that returns
+    for i in range(ctx.scale(60, 600)):
+        n1 = rng.randint(1, 5)
+        progs = [[('q', k) for k in range(1, n1 + 1)] + [('D', 0)]]
+        if i % 2:
+            progs.append([('q', 10 + k) for k in range(rng.randint(1, 3))])
+        fail = rng.randrange(0, n1 + 1)
+        bias = rng.random()
+
+        def choose(en, n, bias=bias):
+            users = [x for x in en if x != 0]
+            if users and rng.random() < 0.5 + bias / 2:
+                return rng.choice(users)
+            return rng.choice(en)
+        r = scenario(C, E, progs, choose, 'plain', fail_prefix=fail)
+        label = 'graceful disconnect whose flush fails at length prefix #%d, then disconnect(immediate=True)' % fail
+        ctx.case(('failing-flush', prog_str(progs), fail, tuple(r['ran'])), sample={'programs': prog_str(progs), 'kind': 'failing-flush', 'fail': fail})
+        ctx.count('failing_flush_walks')
+        log = r['log']
+        failed = any(e[1] == 'sndfail' for e in log)
+        done_at = next((j for j, e in enumerate(log) if e[1] == 'ddone'), None)
+        bad = None
+        if done_at is not None:
+            later = [e for e in log[done_at:] if e[1] == 'snd']
+            if later:
+                bad = 'packets %r were sent after the disconnect returned' % sorted({e[2] for e in later})
+            elif not r['closed']:
+                bad = 'the socket is still open when the disconnect has returned and every thread is done'
+        if not bad and r['caller_errors']:
+            bad = 'an API call raised to its caller: %r' % (r['caller_errors'][:2],)
+        if not bad and r.get('stuck'):
+            bad = 'the networking thread never ends although the disconnect returned (%s)' % r['stuck']
+        if bad:
+            ctx.violation('%s: %s' % (label, bad), {'programs': prog_str(progs), 'schedule': r['ran'][:300], 'fail_prefix': fail, 'flush_failed': failed},
+                          key={'programs': prog_str(progs), 'schedule': r['ran'], 'kind': 'failing-flush'})
+        if r['errors'] and not failed:
             ctx.violation('%s: a thread raised: %r' % (label, r['errors'][:2]), {'programs': prog_str(progs), 'schedule': r['ran']},
                           key={'programs': prog_str(progs), 'schedule': r['ran'], 'kind': 'thread-error'})
     # ---- bulk: more queued packets than the networking thread writes per batch, then a graceful disconnect
